@@ -79,7 +79,7 @@ namespace Givaro {
     Integer  gcd (Integer& u, Integer& v,
                   const Integer& a, const Integer& b )
     {
-        v = 1; // v must not be 0 to be computed.
+        if (&v != &a && &v != &b) v = 1; // v must not be 0 to be computed (but may be one of the operands).
         Integer Res(Integer::one);
         mpz_gcdext( (mpz_ptr)&(Res.gmp_rep), (mpz_ptr)&(u.gmp_rep), (mpz_ptr)&(v.gmp_rep),
                     (mpz_srcptr)&(a.gmp_rep), (mpz_srcptr)&(b.gmp_rep) ) ;
@@ -95,7 +95,7 @@ namespace Givaro {
     Integer&  gcd (Integer& g, Integer& u, Integer& v,
                    const Integer& a, const Integer& b)
     {
-        v = 1; // v must not be 0 to be computed.
+        if (&v != &a && &v != &b) v = 1; // v must not be 0 to be computed (but may be one of the operands).
         mpz_gcdext( (mpz_ptr)&(g.gmp_rep), (mpz_ptr)&(u.gmp_rep), (mpz_ptr)&(v.gmp_rep),
                     (mpz_srcptr)&(a.gmp_rep), (mpz_srcptr)&(b.gmp_rep) ) ;
         if (g.priv_sign() < 0) { Integer::negin(u); Integer::negin(v); return Integer::negin(g);}
